@@ -96,7 +96,22 @@ def numeric_key_pred():
     from eth_utils import ValidationError
     from py_ecc.bls import G2Basic
     bad = []
-    for k in (5.0, 2.5, float(2 ** 200), Fraction(7, 1), Decimal(11), 3 + 0j, True and 1.0):
+    class Idx:                      # integer-LIKE, not an int: only __index__ (what operator.index / range / slicing accept)
+        def __init__(self, v): self.v = v
+        def __index__(self): return self.v
+        def __repr__(self): return f"Idx({self.v})"
+
+    class IdxArith(Idx):            # fixed-width-integer style: __index__ plus the arithmetic a double-and-add ladder uses
+        def __eq__(self, o): return self.v == (o.v if isinstance(o, Idx) else o)
+        def __hash__(self): return hash(self.v)
+        def __mod__(self, o): return self.v % o
+        def __floordiv__(self, o): return IdxArith(self.v // o)
+        def __lt__(self, o): return self.v < o
+        def __gt__(self, o): return self.v > o
+        def __int__(self): return self.v
+        def __bool__(self): return bool(self.v)
+
+    for k in (5.0, 2.5, float(2 ** 200), Fraction(7, 1), Decimal(11), 3 + 0j, True and 1.0, Idx(5), IdxArith(5), IdxArith(1), Idx(1 << 200)):
         for nm, f in (("SkToPk", lambda k=k: G2Basic.SkToPk(k)), ("Sign", lambda k=k: G2Basic.Sign(k, b"m"))):
             try:
                 f()
